@@ -210,6 +210,16 @@ func c20Helpers() []helper {
 			_ = c.Append(it)
 			return "ok"
 		}},
+		// a list whose only member is the nil kind, compared with something that is not a list
+		{"ItemsEqual(obj,[x])", func(it ap.Item, _ *cbProbe) string {
+			o := &ap.Object{ID: "https://example.com/o", Type: ap.NoteType}
+			return fmt.Sprint(ap.ItemsEqual(o, ap.ItemCollection{it}), ap.ItemsEqual(ap.ItemCollection{it}, o), ap.ItemsEqual(ap.IRI("https://example.com/o"), &ap.ItemCollection{it}))
+		}},
+		{"Equals(obj{tag:[x]},obj{tag:o})", func(it ap.Item, _ *cbProbe) string {
+			a := &ap.Object{ID: "https://example.com/o", Type: ap.NoteType, Context: ap.ItemCollection{it}}
+			b := &ap.Object{ID: "https://example.com/o", Type: ap.NoteType, Context: &ap.Object{ID: "https://example.com/c"}}
+			return fmt.Sprint(ap.ItemsEqual(a, b), ap.ItemsEqual(b, a))
+		}},
 		// a nil kind as a MEMBER of a list that is converted to its IRIs: nothing stands for it in the result
 		{"[a,x,b].IRIs()", func(it ap.Item, _ *cbProbe) string {
 			l := ap.ItemCollection{ap.IRI("https://example.com/a"), it, ap.IRI("https://example.com/b")}
@@ -442,6 +452,10 @@ func c20Neutral(h string) string {
 		return "true"
 	case "CopyItemProperties(x,obj)", "CopyItemProperties(obj,x)":
 		return "err"
+	case "ItemsEqual(obj,[x])":
+		return "false false false"
+	case "Equals(obj{tag:[x]},obj{tag:o})":
+		return "false false"
 	case "[a,x,b].IRIs()":
 		return "[https://example.com/a https://example.com/b]"
 	case "ToIRIs([x])":
